@@ -696,6 +696,16 @@ impl<T: ArrayValue> Array<T> {
                 self.data = self.data.slice(self.row_len()..);
             }
             self.shape[0] -= 1;
+            // The key of the removed row goes with it
+            if self.meta.map_keys.as_ref().is_some_and(|keys| keys.is_fixed()) {
+                self.meta.take_map_keys();
+            } else if let Some(keys) = self.meta.map_keys_mut() {
+                if is_end {
+                    keys.take(self.shape[0]);
+                } else {
+                    keys.drop(1);
+                }
+            }
             self.validate();
             (first, self)
         } else {
